@@ -51,7 +51,7 @@ pub fn stages(id: &str) -> Vec<Stage> {
             st(C01 { params: Params::conflict_heavy().with_soft(3, 150), stage: "debug", async_weight: 3 }, 6_000, 300_000, Debug),
         ],
         "C02" => vec![
-            st(C02 { params: Params::conflict_heavy(), stage: "main", variants: 4 }, 15_000, 600_000, Release),
+            st(C02 { params: Params::conflict_heavy().env_override(), stage: "main", variants: 4 }, 15_000, 600_000, Release),
         ],
         "C03" => vec![
             st(C03 { params: Params::conflict_heavy(), stage: "main" }, 20_000, 800_000, Release),
